@@ -112,9 +112,9 @@ func NewMonitor(id, part, level, rule string) *Monitor {
 	return m
 }
 
-func (m *Monitor) SetFloor(n int)           { m.floor = n }
+func (m *Monitor) SetFloor(n int)             { m.floor = n }
 func (m *Monitor) Require(counters ...string) { m.required = append(m.required, counters...) }
-func (m *Monitor) Assume(s ...string)       { m.assumptions = append(m.assumptions, s...) }
+func (m *Monitor) Assume(s ...string)         { m.assumptions = append(m.assumptions, s...) }
 
 func (m *Monitor) Eval(n int) {
 	m.mu.Lock()
@@ -322,8 +322,9 @@ var (
 )
 
 // known_findings.txt lines:
-//   known: property=C14 sig=<signature> <what fails>
-//   fixed: property=C04 <commit> <what failed>      (suppresses nothing)
+//
+//	known: property=C14 sig=<signature> <what fails>
+//	fixed: property=C04 <commit> <what failed>      (suppresses nothing)
 func loadKnown() []Known {
 	knownOnce.Do(func() {
 		f, err := os.Open(filepath.Join(VerifDir(), "known_findings.txt"))
